@@ -254,7 +254,16 @@ class Term(ItemSequenceT[T]):
             pass
         it = _iter_normalized(self, self.normalize_elem)
         items = self._reduce_items(it, keep_item_order=False)
-        if items == self._items:  # self is already normalized
+        # self is already normalized if it holds the very same items
+        # (elements which are only equal, like a unit and an alias of it, do
+        # not count: the alias is not a base element)
+        if len(items) == len(self._items) and \
+                all(exp1 == exp2 and
+                    (elem1 is elem2 or (isinstance(elem1, Rational) and
+                                        isinstance(elem2, Rational) and
+                                        elem1 == elem2))
+                    for (elem1, exp1), (elem2, exp2)
+                    in zip(items, self._items)):
             self._normalized = self
             return self
         term = self.__class__(items, reduce_items=False)
